@@ -528,7 +528,7 @@ func ruleC08Facade(r *Run) {
 	// (3) every store to Context.Resp inside the module stores the address of the same context's writer
 	for _, f := range w.Funcs {
 		for i, st := range storesToField(f, respF) {
-			fa := st.Addr.(*ssa.FieldAddr)
+			fa := fieldAddrOf(st)
 			v := st.Val
 			if mi, ok := v.(*ssa.MakeInterface); ok {
 				v = mi.X
@@ -903,7 +903,7 @@ func ruleC09InChain(r *Run) {
 func init() {
 	register(&property{
 		Meta: propertyMeta{
-			ID: "C08",
+			ID:          "C08",
 			Explanation: "The wrapper writer is a three-state machine (unset / status recorded / committed) checked per method for all operation sequences: (C08-LATCH) the underlying WriteHeader has exactly one call site, guarded by length == noWritten, whose path sets the latch and passes the recorded status after the 0->200 default; noWritten is stored only together with a new underlying writer; other length stores are 0 or length + n with n from the underlying Write. (C08-PRECOMMIT) every call on the underlying writer that can commit implicitly (Write, Flush, ...) is dominated by the explicit commit; Hijack marks the response written. (C08-RECORD) WriteHeader only records, and only positive statuses. (C08-END) every normal exit of the dispatcher and the recovered exit after the panic hook pass the commit. (C08-FACADE) the raw writer is reachable only through the wrapper: Resp always points to the same context's wrapper, adapters pass c.Resp, rux never calls RawWriter.",
 			NotDecided:  []string{"body concatenation and Length() arithmetic under short writes/errors of the underlying writer (only 'length += n of the underlying Write' is checked)", "what a user-replaced c.Resp does", "which status wins when a helper is called after the commit (a run-time order)"},
 			Assumptions: []string{"net/http.ResponseWriter commits implicitly on Write/Flush (documented)", "handlers write through c.Resp or Context helpers"},
@@ -917,7 +917,7 @@ func init() {
 	})
 	register(&property{
 		Meta: propertyMeta{
-			ID: "C09",
+			ID:          "C09",
 			Explanation: "(C09-FRAME) the dispatcher installs a deferred recovering closure iff OnPanic != nil; with a hook no call that can run user code (QuickMatch, SetHandlers, Next, OnError) is reachable before the frame; in the closure recover() != nil guards Set(CTXRecoverResult, value) -> exactly one hook call (not in a loop, same context) -> no re-panic. (C08-END) the recovered exit commits the response after the hook. (C09-ONLY) no other recover in rux's request core and no deferred frame in the chain executor, so nothing resumes the chain. (C09-INCHAIN) every handler-shaped middleware of the module that calls Next() and recovers in a deferred closure parks the cursor on the recovered edge. (C03-POOL/C10-RESET) the context of a panicked dispatch is not recycled (Put not deferred) and every pooled context is fully re-initialised.",
 			NotDecided:  []string{"what the hook writes", "behaviour of net/http when the panic propagates", "user handlers"},
 			Assumptions: []string{"Go's defer/recover semantics", "C10's total re-initialisation makes later requests independent of the panicked one"},
